@@ -15,7 +15,10 @@ FUNCTIONS = ["wannierberri.symmetry.orbitals.Orbitals.__init__ (hybrid matrices)
              "OrbitalRotator.__call__ (cache, irot, ';'-joined shells, local bases)",
              "wannierberri.symmetry.Dwann.Dwann.__init__ / get_on_points / orbit_from_positions (thorough tier)"]
 BOUNDS = dict(
-    quick=dict(shells="s p d sp3 over all of O(3) (f: one symbolic proper rotation and its negative: orthogonality, parity, defining relation); sp p2 pxy sp2 pz over the stabiliser of their span (axis rotations x reflections); "
+    quick=dict(cache="one OrbitalRotator object asked for g1, g2 = g1.delta and delta (3 concrete g1 incl. improper and identity, delta = 0.057, 0.29, 0.11, 0.003 "
+                     "degrees, both call orders), p and d: every returned matrix equals the matrix of the requested rotation to 5e-4 / 1e-3, is orthogonal, the three "
+                     "returned matrices compose, and (p) satisfies the defining relation for every r in [-1,1]^3",
+               shells="s p d sp3 over all of O(3) (f: one symbolic proper rotation and its negative: orthogonality, parity, defining relation); sp p2 pxy sp2 pz over the stabiliser of their span (axis rotations x reflections); "
                       "t2g eg sp3d2 over O_h (48 signed permutation matrices)",
                rotation="R = sigma*M(q), q a symbolic unit quaternion (4 reals on the 3-sphere), sigma=+-1; axis families: symbolic angle (unit-circle atoms)",
                composition="one symbolic factor times concrete signed permutation matrices, both orders (all 48 for s p sp3; the 3 generators of O_h "
@@ -34,19 +37,23 @@ EXPLANATION = ("The real rot_orb_basis/rot_orb/OrbitalRotator run with the rotat
                "sympy.sqrt(3.0) etc. and the doubles 1/sqrt(k) of hybrids_coef are algebraic atoms (w_p^2=p, w_p>0), and every value stored into the "
                "result array is converted exactly (sympy Floats as binary rationals) into a polynomial in q.  A.A^T=1, A(1)=1 and the composition law "
                "are polynomial identities modulo |q|^2=1 decided by normal form + z3; so are the parity law A(-R) = (-1)^l A(R) and, for the complete shells, "
-               "the defining relation phi_j(R^-1 r) = sum_i phi_i(r) A_ij at a symbolic point r with the package's own orbital polynomials.  Thorough tier: the real Dwann "
+               "the defining relation phi_j(R^-1 r) = sum_i phi_i(r) A_ij at a symbolic point r with the package's own orbital polynomials.  Nearby rotations requested from one rotator object are checked against the documented cache tolerance.  Thorough tier: the real Dwann "
                "runs on model space groups (real irrep operations) with a symbolic k-point; unitarity, centre mapping and the group law of the assembled matrices are "
                "identities in the unit-circle atoms exp(2 pi i k_a).")
 ASSUMPTIONS = ["hybrid sets whose span is a proper subspace of the shells involved (sp p2 pxy sp2 pz t2g eg sp3d2) are rotated only by elements of the "
                "stabiliser of that span (site-symmetry operations in local bases - the only way Dwann/Projection call them); outside it rot_orb returns "
                "a projection that cannot be orthogonal",
-               "hybrid coefficients of hybrids_coef are the doubles closest to n/sqrt(k); they are taken as the algebraic numbers they round"]
+               "hybrid coefficients of hybrids_coef are the doubles closest to n/sqrt(k); they are taken as the algebraic numbers they round",
+               "OrbitalRotator merges rotations that differ by less than its documented tolerance 1e-4 in every element (UniqueList(tolerance=1e-4)); matrices "
+               "returned by one rotator object are therefore claimed to 5e-4 (p) / 1e-3 (d) = 1e-4 x Lipschitz constant of the shell polynomials with margin, "
+               "not exactly; the unchanged tree passes the 0.003-degree pair only by this tolerance"]
 OUTSIDE = ["second sentence of the property (Dwann): quick tier not at all; thorough tier on the model space groups listed in BOUNDS only - arbitrary space groups "
            "built by irrep from a structure, spinor and time-reversal operations, symbolic site coordinates and the composition law of non-symmorphic groups "
            "(lattice-translation phases) are outside; the sign convention of the Bloch phase is not pinned by the property (a conjugated phase passes)",
            "three symbolic rotations for the f shell (cubic in 243-term entries); more than three factors",
            "quick tier: the f shell, and improper first factors in the two-symbolic-factor law for d (both in the thorough tier)",
-           "OrbitalRotator identifies rotations closer than its tolerance 1e-4 (UniqueList); cache lookups are exercised with well separated rotations only",
+           "OrbitalRotator cache with symbolic nearby rotations (the tolerance comparison of two symbolic 3x3 matrices forks on 27 signs); nearby rotations are "
+           "concrete (3 base rotations x 4 small rotations of 0.003..0.29 degrees, both call orders), only the point r of the defining relation is symbolic there",
            "rounding of the double arithmetic (real-number semantics of the code)"]
 STUBS = ["Dwann (thorough): space group = plain container of real irrep SymmetryOperation objects generated by closure from integer generators; np.exp in Dwann.py "
          "on 2 pi i (n.k) with symbolic k = product of powers of one unit-circle atom pair per component of k",
@@ -689,6 +696,69 @@ def dwann_cases():
     return out
 
 
+# ------------------------------------------------------------------------------------------------------------
+# nearby rotations through one OrbitalRotator object (its cache identifies rotations closer than the documented tolerance 1e-4)
+CACHE_TOL = {"p": 5e-4, "d": 1e-3}     # 1e-4 (documented cache tolerance) x Lipschitz constant of the shell polynomials (1 for p, < 5 for d), with margin
+
+
+def small_rotation(axis, angle):
+    from scipy.spatial.transform import Rotation
+    return Rotation.from_rotvec(np.array(axis, dtype=float) / np.linalg.norm(axis) * angle).as_matrix()
+
+
+def nearby_rotations():
+    g1s = [_Mq([1.0, 2.0, 3.0, 4.0]), -_Mq([2.0, -1.0, 1.0, 3.0]), np.eye(3)]
+    deltas = [small_rotation((0, 0, 1), 1e-3), small_rotation((1, 0, 0), 5e-3), small_rotation((1, 2, 3), 2e-3), small_rotation((2, -1, 1), 5e-5)]
+    return g1s, deltas
+
+
+def case_cache(rec, shell):
+    """two rotations g1, g2 = g1.delta requested from the SAME rotator, in both orders, and delta itself after the identity: every returned matrix must
+    be the matrix of the requested rotation (to CACHE_TOL: rotations closer than 1e-4 are merged by design, larger differences must not be)"""
+    install()
+    g1s, deltas = nearby_rotations()
+    tol = CACHE_TOL[shell]
+    n = O.num_orbitals(shell)
+    r = sarr([SymC.var(x, -1.0, 1.0) for x in ("rx", "ry", "rz")])
+    rs = [sympy.Symbol(x, real=True) for x in ("rx", "ry", "rz")]
+    phis = O.get_orbitals().orb_function_dic[shell]
+    phi_r = sarr([from_sympy(sympy.sympify(f(*rs))) for f in phis])
+
+    def returned_ok(tag, A, g):
+        A = rationalise(A)
+        rec.close(f"{tag}: returned matrix = matrix of the requested rotation", A, rationalise(O.OrbitalRotator()(shell, rot_cart=g)), tol, bound=2.0,
+                  key=f"OrbitalRotator({shell}) returns the cached matrix of another rotation")
+        rec.close(f"{tag}: returned matrix orthogonal", rationalise(A @ A.T), eye(n), 1e-9, bound=2.0, key=f"OrbitalRotator({shell}) returned matrix not orthogonal")
+        if shell != "p":      # the relation is linear in r for p (decided in LRA); for d a violated instance costs z3 minutes of NRA - the matrix comparison above covers it
+            return
+        rp = as_sympy(lift(np.linalg.inv(g)) @ r)
+        lhs = sarr([from_sympy(sympy.sympify(f(*rp))) for f in phis])
+        rec.close(f"{tag}: phi_j(g^-1 r) = sum_i phi_i(r) A_ij for |r_a| <= 1", rationalise(lhs), rationalise(phi_r @ A), 20 * tol, bound=2.0,
+                  key=f"OrbitalRotator({shell}) returned matrix does not describe the requested rotation")
+
+    def body(rec):
+        for i, g1 in enumerate(g1s):
+            for j, d in enumerate(deltas):
+                g2 = g1 @ d
+                rec.witness = lambda env: dict(test="cache", shell=shell, g1=g1.tolist(), delta=d.tolist(), r=[env.val(x) for x in r])
+                for order in ("g1 first", "g2 first"):
+                    rot = O.OrbitalRotator()
+                    if order == "g1 first":
+                        A1 = rot(shell, rot_cart=g1)
+                        A2 = rot(shell, rot_cart=g2)
+                    else:
+                        A2 = rot(shell, rot_cart=g2)
+                        A1 = rot(shell, rot_cart=g1)
+                    Ad = rot(shell, rot_cart=d)
+                    tag = f"g1 #{i}, delta #{j}, {order}"
+                    returned_ok(tag + " [g1]", A1, g1)
+                    returned_ok(tag + " [g2]", A2, g2)
+                    returned_ok(tag + " [delta]", Ad, d)
+                    rec.close(f"{tag}: A(g1) A(delta) = A(g1.delta) with the three returned matrices", rationalise(A1 @ Ad), rationalise(A2), 3 * tol, bound=2.0,
+                              key=f"OrbitalRotator({shell}) returned matrices do not compose")
+    rec.explore(body)
+
+
 def cases(tier, seed):
     q = tier == "quick"
     out = []
@@ -717,6 +787,8 @@ def cases(tier, seed):
         out.append(Case(f"axis {shell}", case_axis, dict(shell=shell)))
     for shell in OHONLY:
         out.append(Case(f"O_h {shell}", case_oh, dict(shell=shell)))
+    for shell in ("p", "d"):
+        out.append(Case(f"cache: nearby rotations in one rotator {shell}", case_cache, dict(shell=shell), timeout=1100))
     if q:
         return out
     # ---- thorough only ----------------------------------------------------------------------------------------
@@ -842,6 +914,8 @@ def replay(rec):
         chk("blockdiag of the parts", A, block_diag(*[rot(sh, R) for sh in w["symbol"].split(";")]))
         chk("orthogonal", A @ A.T, np.eye(len(A)))
         chk("parity", rot(w["symbol"], -R), block_diag(*[_parity(sh) for sh in w["symbol"].split(";")]) @ A)
+    elif t == "cache":
+        return _replay_cache(w)
     elif t == "dwann":
         return _replay_dwann(w)
     else:
@@ -886,3 +960,33 @@ def _replay_dwann(w):
     except Exception as e:
         bad.append(f"raises {type(e).__name__}: {str(e)[:150]}")
     return bool(bad), f"Dwann group {w['group']} site {w['position']} orbital {orbital} bases {w['bases']} k={k.tolist()}: " + ("; ".join(bad[:4]) or "unitary, centres mapped, composition holds")
+
+
+def _replay_cache(w):
+    from wannierberri.symmetry.orbitals import OrbitalRotator, num_orbitals, get_orbitals
+    sh, g1, d = w["shell"], np.array(w["g1"]), np.array(w["delta"])
+    g2, tol = g1 @ d, CACHE_TOL[w["shell"]]
+    phis = get_orbitals().orb_function_dic[sh]
+    val = lambda r: np.array([float(f(*r)) for f in phis])
+    pts = ([np.array(w["r"], dtype=float)] if any(w.get("r") or []) else []) + list(np.random.default_rng(3).uniform(-1, 1, size=(4, 3)))
+    bad = []
+    for order in ("g1 first", "g2 first"):
+        rot = OrbitalRotator()
+        if order == "g1 first":
+            A1, A2 = rot(sh, rot_cart=g1), rot(sh, rot_cart=g2)
+        else:
+            A2 = rot(sh, rot_cart=g2)
+            A1 = rot(sh, rot_cart=g1)
+        Ad = rot(sh, rot_cart=d)
+        for nm, A, g in (("g1", A1, g1), ("g2", A2, g2), ("delta", Ad, d)):
+            e = np.abs(A - OrbitalRotator()(sh, rot_cart=g)).max()
+            if e > tol:
+                bad.append(f"{order}: matrix returned for {nm} differs from the matrix of {nm} by {e:.2e}")
+            e = max(np.abs(val(np.linalg.inv(g) @ r) - val(r) @ A).max() for r in pts)
+            if e > 20 * tol:
+                bad.append(f"{order}: defining relation for {nm} off by {e:.2e}")
+        e = np.abs(A1 @ Ad - A2).max()
+        if e > 3 * tol:
+            bad.append(f"{order}: |A(g1)A(delta)-A(g1.delta)|={e:.2e}")
+    ang = np.degrees(np.arccos(np.clip((np.trace(d) - 1) / 2, -1, 1)))
+    return bool(bad), f"cache {sh}: g2 = g1.delta, delta = rotation by {ang:.4f} deg (max element difference {np.abs(g2 - g1).max():.1e}); " + ("; ".join(bad[:4]) or f"all returned matrices correct to {tol}")
